@@ -27,10 +27,12 @@ import (
 	"os/signal"
 	"path/filepath"
 	"sort"
+	"strconv"
 	"strings"
 	"sync"
 	"syscall"
 
+	"github.com/ozontech/seq-db/consts"
 	"github.com/ozontech/seq-db/frac"
 	"github.com/ozontech/seq-db/fracmanager"
 
@@ -1187,6 +1189,30 @@ func (d *driver) faults(r *rng.R, ci int, c *corpus) {
 		d.w.Add(fmt.Sprintf("CFault %s %d %d%%N %s [%s]", p.coq(), k, n, casefile.Bool(err != nil), strings.Join(wl, "; ")),
 			map[bool]string{false: "fault/", true: "fault-persistent/"}[x.persist]+secOf(k), k <= total, fin, map[string]any{"error": fmt.Sprint(err), "writes_done": len(ws.writes)})
 	}
+	// arbitrary sets of failing writes (several transient ones, transient + persistent)
+	nsets := 8
+	if d.tier != "quick" {
+		nsets = 20
+	}
+	for _, s := range randomSets(r, total, nsets, func(k int) int64 { return ws0.writes[k-1].Len }) {
+		d.runFaultSet(a, params, p, secOf, s, "faultset", in)
+	}
+	sh := shapeOf(c)
+	d.w.Add(fmt.Sprintf("CShape %s %d%%N %s %d%%N %d%%N", p.coq(), consts.LIDBlockCap, lidFieldsCoq(sh), consts.IDsBlockSize, len(c.Docs)+1),
+		"shape/corpus", true, in, map[string]any{"index_sections": p.Secs})
+	// the block generators under push oracles: small capacities so that the "block is full" sites
+	// are taken on small corpora too, plus the real ones
+	if len(c.Docs) <= 400 || d.tier != "quick" {
+		ncaps, maxSingles := 3, 24
+		if d.tier != "quick" {
+			ncaps, maxSingles = 5, 40
+		}
+		caps := append(capsFor(r, sh, ncaps), int64(consts.LIDBlockCap))
+		sizes := append(idSizesFor(r, int64(len(c.Docs)+1), ncaps), int64(consts.IDsBlockSize))
+		d.generators(r.Fork(), c, a, params, in, caps, sizes, maxSingles)
+	} else {
+		d.generators(r.Fork(), c, a, params, in, []int64{int64(consts.LIDBlockCap)}, []int64{int64(consts.IDsBlockSize)}, 8)
+	}
 }
 
 // ------------------------------------------------------------------ file size limit (real fm.seal)
@@ -1301,7 +1327,7 @@ func main() {
 		fmt.Fprintln(os.Stderr, "usage: hC08 -seed N -tier quick|thorough -out DIR")
 		os.Exit(2)
 	}
-	w, err := casefile.New(*out, "C08", "From C08 Require Import Model CaseDefs.", 150)
+	w, err := casefile.New(*out, "C08", "From C08 Require Import Model ModelGen CaseDefs.", 150)
 	if err != nil {
 		panic(err)
 	}
@@ -1310,7 +1336,10 @@ func main() {
 		panic(err)
 	}
 	defer os.RemoveAll(tmp)
-	d := &driver{w: w, tier: *tier, seed: *seed, tmp: tmp, workers: 6, maxQ: 4}
+	d := &driver{w: w, tier: *tier, seed: *seed, tmp: tmp, workers: 4, maxQ: 4}
+	if n, err := strconv.Atoi(os.Getenv("VERIF_HC08_WORKERS")); err == nil && n >= 1 && n <= 16 {
+		d.workers = n
+	}
 	r := rng.New(*seed)
 
 	type cfg struct {
@@ -1367,6 +1396,16 @@ func main() {
 			bigSets = append(bigSets, bs)
 		}
 	}
+	// corpora that straddle the ID-block capacity (the sorted IDs include the system ID: n documents
+	// give n+1 IDs): exactly one full block, one full block + 1, ...; write-fault sweep only
+	idb := consts.IDsBlockSize
+	if *tier == "quick" {
+		cfgs = append(cfgs, cfg{n: idb - 1, skip: r.Bool(), faultOnly: true}, cfg{n: idb, skip: r.Bool(), faultOnly: true})
+	} else {
+		for _, n := range []int{idb - 2, idb - 1, idb, idb + 1, 2*idb - 1, 2 * idb} {
+			cfgs = append(cfgs, cfg{n: n, skip: r.Bool(), faultOnly: true})
+		}
+	}
 	for i, bs := range bigSets {
 		// the first set also goes through the traced seal / crash states / restarts; the others through
 		// the write-fault sweep only
@@ -1395,6 +1434,7 @@ func main() {
 			os.RemoveAll(dir)
 		}
 	}
+	d.bigLIDs(r.Fork())
 	if len(d.herr) > 0 {
 		// machinery trouble (strace log not understood, child could not be started ...): not a verdict
 		for _, e := range d.herr {
